@@ -378,3 +378,69 @@ def shared_writes(out):
     """Descriptions of heap writes, during the call, to objects that existed before it (registries, algorithm
     models, class tables, keys, key sets).  Only the symbolic evaluator observes writes; natively: []."""
     return []
+
+
+# ---- JWE spec functions (native: raw cryptography; symbolic: idealised relations) ---------------
+def spec_gcm_ok(key, iv, aad, ct, tag):
+    from cryptography.hazmat.primitives.ciphers.aead import AESGCM
+    from cryptography.exceptions import InvalidTag
+    if len(key) not in (16, 24, 32) or len(tag) != 16 or len(iv) < 8:
+        return False
+    try:
+        AESGCM(key).decrypt(iv, ct + tag, aad)
+        return True
+    except InvalidTag:
+        return False
+
+
+def spec_gcm_dec(key, iv, aad, ct, tag):
+    from cryptography.hazmat.primitives.ciphers.aead import AESGCM
+    return AESGCM(key).decrypt(iv, ct + tag, aad)
+
+
+def spec_unwrap_ok(kek, ek):
+    from cryptography.hazmat.primitives.keywrap import aes_key_unwrap, InvalidUnwrap
+    try:
+        aes_key_unwrap(kek, ek)
+        return True
+    except (InvalidUnwrap, ValueError):
+        return False
+
+
+def spec_unwrap(kek, ek):
+    from cryptography.hazmat.primitives.keywrap import aes_key_unwrap
+    return aes_key_unwrap(kek, ek)
+
+
+def spec_cbc_hs_tag(hname, mac_key, aad, iv, ct, n):
+    """RFC 7518 section 5.2.2.1: T = first n octets of HMAC(MAC_KEY, AAD || IV || E || AL), AL = 64-bit big-endian bit length of AAD."""
+    import hmac as _hmac
+    import hashlib as _hashlib
+    al = (len(aad) * 8).to_bytes(8, "big")
+    return _hmac.new(mac_key, aad + iv + ct + al, getattr(_hashlib, hname)).digest()[:n]
+
+
+def is_native():
+    """True under the native evaluator (replay), False under the symbolic one."""
+    return True
+
+
+def random_draws(out):
+    """(what, size) of every entropy-tape draw made during the call (symbolic evaluator only; natively [])."""
+    return []
+
+
+def is_fresh_draw(value, n):
+    """The value is one cell of the entropy tape of exactly n octets, drawn during this harness run
+    (symbolic: the term is Draw(cell, n); natively it only checks the size)."""
+    return len(value) == n
+
+
+def spec_deflate_raw(b):
+    import zlib as _zlib
+    c = _zlib.compressobj(wbits=-15)
+    return c.compress(b) + c.flush()
+
+
+def spec_inflate_len_ok(stream, limit):
+    return True
